@@ -196,6 +196,12 @@ def table_text(rows):
 
 # ------------------------------------------------------------------ the check
 def run(ctx):
+    C.seam_check(ctx["report"], ctx["rundir"], "C20",
+                 texts=["1 usd to gbp", "100 jpy to eur", "1 vnd to btc", "0.001 jpy to btc", "(1 vnd to btc) btc to vnd", "1 zwg to usd", "1 usd to zwg", "3 eur to usd + 1 usd",
+                        "1 btc to vnd", "1 usd to kg", "2.5 gbp to gbp"],
+                 templates=[("%s usd to gbp", ["1", "2", "3"]), ("(%s usd to gbp) > 1.5", ["1", "2", "3", "4"]), ("%s vnd to btc", ["1", "1000", "10^6"]),
+                            ("(%s eur to jpy) jpy to eur", ["1", "2.5", "1/3"])],
+                 pairs=[("((1 vnd to btc) btc to vnd) > 0.999999", "1"), ("(1 vnd to btc) > 0", "1"), ("(1 usd to zwg) > 0", "1")])
     rep, tier, seed = ctx["report"], ctx["tier"], ctx["seed"]
     rng = random.Random(seed * 15485863 + 20)
     quick = tier == "quick"
